@@ -184,4 +184,17 @@ PROPS = {
         "assumptions": ["oracle curve = product of long-double matrix exponentials; derivatives by matrix jets (order 3); Jacobians by 4th-order central differences "
                         "of that oracle in long double (h = 1e-3)", "verdict covers only the executions sampled"],
     },
+    "C13": {
+        "units": [{"name": "c13_a", "src": "harness/c13.cpp", "defs": ["-DTS=0"], "flavor": "asan", "shards": {"quick": 8, "thorough": 16}},
+                  {"name": "c13_b", "src": "harness/c13.cpp", "defs": ["-DTS=1"], "flavor": "asan", "shards": {"quick": 8, "thorough": 16}}],
+        "rule": "cases = splines (K, group, N in K+1..30 control points with differences from 0 / tiny / switch band / moderate, t0 in {0, +-1e3, irrational}, "
+                "dt in 1e-3..1e2), each evaluated at 12 random times, EVERY knot and knot +- 1 ulp, t_min, t_max, just and far (<= 1e3 spans) outside; "
+                "per spline also continuity across every interior knot, local support of a moved control point on every interval, constants, "
+                "left-equivariance; K = 1..6 on SE3, {3,6} SO3, {2,4} SE2, {1,5} R3, 3 on Bundle<SO3,R2>; distinct = distinct splines",
+        "floors": {"min_evaluations": {"quick": 30000, "thorough": 800000},
+                   "cells": [r"SE3d\.K6\.acc", r"SE3d\.K1\.continuity\.value", r"SE2d\.K4\.continuity\.acc", r"R3d\.K5\.local_support", r"B<SO3d,R2d>\.K3\.equivariance\.vel",
+                             r"SO3d\.K3\.outside_is_end_value", r"SE3d\.K3\.constant\.zero_derivatives"]},
+        "assumptions": ["oracle = cumulative B-spline (own Cox-de Boor basis) through matrix jets, evaluated at the exact long-double function of the same (t, t0, dt); "
+                        "exactly on a knot, outputs of discontinuous order are accepted from either side", "verdict covers only the executions sampled"],
+    },
 }
